@@ -173,3 +173,137 @@ package ocifilter
 //@   ensures[list-all] !calls[0].result && access != AccessWrite && access == AccessList && repoName == "*" ==> result == nil
 //@   ensures[name-unknown] !calls[0].result && access != AccessWrite && !(access == AccessList && repoName == "*") ==>
 //@             result == ociregistry.ErrNameUnknown
+
+// ---------------------------------------------------------------------------
+// C13: sub-registry view.
+
+//@ invariant (*subRegistry) self != nil && self.r != nil && self.prefix != ""
+//@ immutable subRegistry.prefix, subRegistry.r
+
+//@ func Sub
+//@   requires r != nil
+//@   ensures[empty-prefix-is-identity] pathPrefix == "" ==> result == r
+//@   ensures result != nil
+
+// repo: every name is mapped below the prefix; the empty name stays empty
+// (so that the underlying registry rejects it).
+//@ func (*subRegistry).repo
+//@   pure
+//@   ensures[empty-stays-empty] name == "" ==> result == ""
+//@   ensures[prefixed] name != "" ==> result == r.prefix + "/" + name
+//@   ensures[confined] result == "" || hasPrefix(result, r.prefix + "/")
+
+//@ func (*subRegistry).mapScopes
+//@   log
+//@   modifies nothing
+
+// The per-element rewrite done by mapScopes: a repository-typed scope gets
+// its name mapped by repo(), everything else is kept as it is, and every
+// element is kept (the iteration never stops early).
+//@ func (*subRegistry).mapScopes$1
+//@   ensures[keeps-iterating] result == true
+//@   ensures[appends-one] len(scopes) == old(len(scopes)) + 1
+//@   ensures[repository-rewritten] rs.ResourceType == ociauth.TypeRepository ==>
+//@             scopes[old(len(scopes))].ResourceType == rs.ResourceType &&
+//@             scopes[old(len(scopes))].Resource == r.repo(rs.Resource) &&
+//@             scopes[old(len(scopes))].Action == rs.Action
+//@   ensures[others-kept] rs.ResourceType != ociauth.TypeRepository ==> scopes[old(len(scopes))] == rs
+
+//@ func (*subRegistry).GetBlob
+//@   ensures[acts-on-prefixed-name-only] calls == [r.mapScopes(ctx), old(r.r).GetBlob(calls[0].result, r.repo(repo), digest)] &&
+//@             result.0 == calls[1].result.0 && result.1 == calls[1].result.1
+
+//@ func (*subRegistry).GetBlobRange
+//@   ensures[acts-on-prefixed-name-only] calls == [r.mapScopes(ctx), old(r.r).GetBlobRange(calls[0].result, r.repo(repo), digest, offset0, offset1)] &&
+//@             result.0 == calls[1].result.0 && result.1 == calls[1].result.1
+
+//@ func (*subRegistry).GetManifest
+//@   ensures[acts-on-prefixed-name-only] calls == [r.mapScopes(ctx), old(r.r).GetManifest(calls[0].result, r.repo(repo), digest)] &&
+//@             result.0 == calls[1].result.0 && result.1 == calls[1].result.1
+
+//@ func (*subRegistry).GetTag
+//@   ensures[acts-on-prefixed-name-only] calls == [r.mapScopes(ctx), old(r.r).GetTag(calls[0].result, r.repo(repo), tagName)] &&
+//@             result.0 == calls[1].result.0 && result.1 == calls[1].result.1
+
+//@ func (*subRegistry).ResolveBlob
+//@   ensures[acts-on-prefixed-name-only] calls == [r.mapScopes(ctx), old(r.r).ResolveBlob(calls[0].result, r.repo(repo), digest)] &&
+//@             result.0 == calls[1].result.0 && result.1 == calls[1].result.1
+
+//@ func (*subRegistry).ResolveManifest
+//@   ensures[acts-on-prefixed-name-only] calls == [r.mapScopes(ctx), old(r.r).ResolveManifest(calls[0].result, r.repo(repo), digest)] &&
+//@             result.0 == calls[1].result.0 && result.1 == calls[1].result.1
+
+//@ func (*subRegistry).ResolveTag
+//@   ensures[acts-on-prefixed-name-only] calls == [r.mapScopes(ctx), old(r.r).ResolveTag(calls[0].result, r.repo(repo), tagName)] &&
+//@             result.0 == calls[1].result.0 && result.1 == calls[1].result.1
+
+//@ func (*subRegistry).PushBlob
+//@   ensures[acts-on-prefixed-name-only] calls == [r.mapScopes(ctx), old(r.r).PushBlob(calls[0].result, r.repo(repo), desc, rd)] &&
+//@             result.0 == calls[1].result.0 && result.1 == calls[1].result.1
+
+//@ func (*subRegistry).PushBlobChunked
+//@   ensures[acts-on-prefixed-name-only] calls == [r.mapScopes(ctx), old(r.r).PushBlobChunked(calls[0].result, r.repo(repo), chunkSize)] &&
+//@             result.0 == calls[1].result.0 && result.1 == calls[1].result.1
+
+//@ func (*subRegistry).PushBlobChunkedResume
+//@   ensures[acts-on-prefixed-name-only] calls == [r.mapScopes(ctx), old(r.r).PushBlobChunkedResume(calls[0].result, r.repo(repo), id, offset, chunkSize)] &&
+//@             result.0 == calls[1].result.0 && result.1 == calls[1].result.1
+
+//@ func (*subRegistry).MountBlob
+//@   ensures[acts-on-prefixed-name-only] calls == [r.mapScopes(ctx), old(r.r).MountBlob(calls[0].result, r.repo(fromRepo), r.repo(toRepo), digest)] &&
+//@             result.0 == calls[1].result.0 && result.1 == calls[1].result.1
+
+//@ func (*subRegistry).PushManifest
+//@   ensures[acts-on-prefixed-name-only] calls == [r.mapScopes(ctx), old(r.r).PushManifest(calls[0].result, r.repo(repo), tag, contents, mediaType)] &&
+//@             result.0 == calls[1].result.0 && result.1 == calls[1].result.1
+
+//@ func (*subRegistry).DeleteBlob
+//@   ensures[acts-on-prefixed-name-only] calls == [r.mapScopes(ctx), old(r.r).DeleteBlob(calls[0].result, r.repo(repo), digest)] &&
+//@             result == calls[1].result
+
+//@ func (*subRegistry).DeleteManifest
+//@   ensures[acts-on-prefixed-name-only] calls == [r.mapScopes(ctx), old(r.r).DeleteManifest(calls[0].result, r.repo(repo), digest)] &&
+//@             result == calls[1].result
+
+//@ func (*subRegistry).DeleteTag
+//@   ensures[acts-on-prefixed-name-only] calls == [r.mapScopes(ctx), old(r.r).DeleteTag(calls[0].result, r.repo(repo), name)] &&
+//@             result == calls[1].result
+
+//@ func (*subRegistry).Tags
+//@   ensures[acts-on-prefixed-name-only] calls == [r.mapScopes(ctx), old(r.r).Tags(calls[0].result, r.repo(repo), startAfter)] &&
+//@             result == calls[1].result
+
+//@ func (*subRegistry).Referrers
+//@   ensures[acts-on-prefixed-name-only] calls == [r.mapScopes(ctx), old(r.r).Referrers(calls[0].result, r.repo(repo), digest, artifactType)] &&
+//@             result == calls[1].result
+
+// Listing: the backend is asked to start strictly after the prefixed start
+// point (or from the beginning), and only stripped names of repositories under
+// the prefix are handed on, in the backend's order, all strictly after the
+// caller's start point. outer(startAfter) is the caller's argument; the
+// captured startAfter is what the enclosing method made of it.
+//@ sink (*subRegistry).r Repositories(bctx, bstart) requires bstart == startAfter
+
+//@ func (*subRegistry).Repositories
+//@   ensures[defers-to-iterator] calls == [r.mapScopes(ctx)]
+
+// Assumed interface contract (what C02 proves of ocimem and C05 of the other
+// listers): items of Repositories(ctx, s) are strictly greater than s.
+//@ seq-items Repositories(ctx, start) yields(name, err) ensures err == nil ==> name > start
+
+//@ func (*subRegistry).Repositories$1
+//@   requires p == r.prefix + "/"
+//@   requires startAfter == (outer(startAfter) == "" ? "" : r.prefix + "/" + outer(startAfter))
+//@   yield-requires(name, err) err == nil ==> r.prefix + "/" + name == repo
+//@   yield-requires(name, err) err == nil && outer(startAfter) != "" ==>
+//@             r.prefix + "/" + name > r.prefix + "/" + outer(startAfter)
+// (name > outer(startAfter) follows by the common-prefix law of lexicographic
+// order, x+a < x+b <==> a < b, which the SMT solvers do not prove unprompted;
+// it is stated in the prefixed domain so that the obligation stays decidable.)
+
+//@ func (*subRegistry).Repositories$1$1
+//@   requires yield != nil
+//@   ensures[error-relayed] err != nil ==> calls == [old(yield)("", err)] && result == false
+//@   ensures[stripped] err == nil && hasPrefix(repo, old(p)) ==>
+//@             calls == [old(yield)(trimPrefix(repo, old(p)), nil)] && result == calls[0].result
+//@   ensures[others-skipped] err == nil && !hasPrefix(repo, old(p)) ==> calls == [] && result == true
